@@ -68,12 +68,17 @@ PROPS["C06"] = dict(
          "completes) runs per configuration. Stack layer: raw tcp attacker against real secured listeners and connectors (including "
          "near-miss PLAIN passwords). Creds layer: PLAIN server engines with the configured pair 'admin'/'secret', 1-2 character pairs and "
          "random printable pairs; HELLO with every proper prefix, four extensions, every single-byte change (xor 01/20/80) of the password "
-         "and of the user name, empty fields, swapped fields - none may be admitted; the exact pair must be (else inconclusive).",
+         "and of the user name, empty fields, swapped fields - none may be admitted; the exact pair must be (else inconclusive). Partial layer: "
+         "option sets that switch a mechanism on without its usual companions (a CURVE secret key with neither CURVE_SERVER nor a server key, "
+         "PLAIN credentials without PLAIN_SERVER, PLAIN_SERVER without credentials, NOISE_XX with a secret key but no pinned remote key) x "
+         "listener/connector x ALLOW_ZMTP2 default/false: whatever mechanism such an endpoint announces in its own greeting is the one no "
+         "peer may bypass (same grammar, depth 3).",
     assumptions=["the attacker does not know the random per-shard credentials / secret keys",
                  "a PLAIN transcript replay is not an attack in scope (it contains the valid credentials)"],
     shards=lambda tier, seed: sharded("c06", _n(tier, 8, 16), _n(tier, 300, 2400))
     + sharded("c06", _n(tier, 4, 8), _n(tier, 300, 1800), extra=["--only", "stack"], name="c06-stack")
-    + sharded("c06", 2, 300, extra=["--only", "creds"], name="c06-creds"),
+    + sharded("c06", 2, 300, extra=["--only", "creds"], name="c06-creds")
+    + sharded("c06", 4, 600, extra=["--only", "partial"], name="c06-partial"),
     min_evaluations={"quick": 2000, "thorough": 20000},
 )
 
